@@ -40,7 +40,7 @@ CLAIMED = {
     'C11': {
         'text': 'Bounded model checking: for every Unicode line up to the stated length the real splitters (and the reader on a one-line stream) equal an independent dialect scanner, decided by z3 over all paths of the real code (CrossHair "Confirmed over all paths" per shard).',
         'design_ref': 'DESIGN.md section 6, C11',
-        'note': TB + 'Bounds: line length <= 5 (quick) / <= 7 (thorough), single-character delimiters , ; TAB | SPACE. Outside: longer lines, multi-character delimiters, JS twin.',
+        'note': TB + 'Bounds: line length <= 5 (quick) / <= 7 (thorough), single-character delimiters , ; TAB | SPACE plus the multi-character delimiters "::", ", " and " | " (length <= 4 quick / <= 6 thorough; class-alphabet lines {quote, delimiter chars, blank, LF, CR, a} solver-enumerated to length 4 / 5). Outside: longer lines, other multi-character delimiters, JS twin.',
         'technique': 'symbolic execution of csv_utils/rbql_csv with z3 (CrossHair), differential against reference dialect scanner',
     },
     'C17': _c(BMC + 'like_to_regex structure for every pattern <=5 chars (symbolic) and LIKE == textbook matcher for every single-line text <=5 chars on all wildcard/literal shapes <=4.', 'C17',
